@@ -52,6 +52,7 @@ ASSUMPTIONS = [
     "Arrow size model: stream bytes = schema message S (written lazily before the first batch) + record batch message B == ipc.get_record_batch_size(batch) + 8 bytes EOS; "
     "batch.schema.serialize().size == S; validated on concrete real-pyarrow batches at import",
     "allocator contract used in (b) (justified by (a)): allocate(n) returns None or an offset with HEADER_SIZE <= off and off + n <= total",
+    "functools.lru_cache objects called directly by allocate_and_write := plain-Python memo (hit = equal hash and ==); CrossHair itself bypasses lru_cache",
 ]
 
 
@@ -649,9 +650,33 @@ class _Sink(shm._ShmSink):
     write = _sink_write  # type: ignore[assignment]
 
 
+_RUN = {"n": 0}
+
+
 class _FakeSchema:
-    def __init__(self, msg_size: int) -> None:
+    """Size-abstract schema.  Its equality/hash identity is INDEPENDENT of its serialized size:
+    pa.Schema.__eq__/__hash__ ignore metadata, so two schemas may compare (and hash) equal and
+    still serialize to different sizes.  Anything the code memoises per schema therefore shows."""
+
+    def __init__(self, msg_size: int, ident: int = 0) -> None:
         self._msg = msg_size
+        self._ident = ident
+        self._run = _RUN["n"]
+
+    def __eq__(self, other: object) -> bool:
+        if not isinstance(other, _FakeSchema):
+            return NotImplemented
+        if other._run != self._run:
+            return False  # objects of an earlier explored path are strangers
+        return self is other or self._ident == other._ident
+
+    def __hash__(self) -> int:
+        return 7  # equal schemas hash equal; collisions are legal
+
+    def equals(self, other: object, check_metadata: bool = False) -> bool:
+        if check_metadata:
+            return self is other
+        return self == other
 
     def serialize(self) -> _FakeMV:
         return _FakeMV(self._msg)
@@ -719,16 +744,56 @@ class _AllocContract:
         if size <= 0:
             self.bad_size = True
             raise ValueError("Allocation size must be positive")
-        if _HOLD["ret_none"] or _HOLD["off"] + size > self.total:
+        offs = _HOLD.get("offs")
+        off = offs[len(self.calls)] if offs else _HOLD["off"]
+        if _HOLD["ret_none"] or off + size > self.total:
             self.none = True
             return None
-        self.calls.append((_HOLD["off"], size))
-        return _HOLD["off"]
+        self.calls.append((off, size))
+        return off
 
 
 class _Shm:
     def __init__(self, buf: _SegBuf) -> None:
         self.buf = buf
+
+
+class _Memo:
+    """functools.lru_cache contract in plain Python (CrossHair bypasses the C cache and calls
+    __wrapped__, which would hide any memoisation): a hit needs equal hash and ==, like the dict
+    inside lru_cache; eviction is not modelled (maxsize >= 2 entries is all the history needs)."""
+
+    def __init__(self, fn) -> None:  # type: ignore[no-untyped-def]
+        self.fn = fn
+        self.entries: list = []
+
+    def __call__(self, *args: object, **kw: object) -> object:
+        if kw:
+            raise HarnessModelError("memo model: keyword call")
+        for k, v in self.entries:
+            if len(k) == len(args) and all(hash(x) == hash(y) and (x is y or x == y) for x, y in zip(k, args)):
+                return v
+        v = self.fn(*args)
+        self.entries.append((args, v))
+        return v
+
+    def cache_clear(self) -> None:
+        self.entries.clear()
+
+
+def _memo_models(fn, module) -> dict:  # type: ignore[no-untyped-def]
+    """Every module-level functools cache the function calls directly, as a _Memo over its __wrapped__."""
+    import functools
+
+    out = {}
+    for name in fn.__code__.co_names:
+        obj = module.__dict__.get(name)
+        if isinstance(obj, functools._lru_cache_wrapper):
+            out[name] = _Memo(obj.__wrapped__)
+    return out
+
+
+_MEMOS = _memo_models(shm.ShmSegment.allocate_and_write, shm)
 
 
 class _Seg:
@@ -746,6 +811,7 @@ class _Seg:
         _has_dictionary_columns=lambda schema: _HOLD["dict"],
         _serialize_for_shm=lambda batch: _FakeMV(batch.dict_size),
         memoryview=_fake_memoryview,
+        **_MEMOS,
     )
 
 
@@ -758,21 +824,32 @@ _STUBS_B = [
 ]
 
 
-def _heavy_schema(nbytes: int):
+def _heavy_schema(nbytes: int, field_level: bool = False):
     import pyarrow as pa
 
+    if field_level:  # compares and hashes equal to the plain schema (pa.Schema ignores metadata there)
+        return pa.schema([pa.field("a", pa.int64(), metadata={b"doc": b"x" * max(0, nbytes)})])
     return pa.schema([pa.field("a", pa.int64())], metadata={b"doc": b"x" * max(0, nbytes)})
 
 
 def _replay_write(args: dict) -> str | None:
-    """Real pyarrow, real POSIX segment: neighbour allocation overwritten / write exceeds its allocation."""
-    import pyarrow as pa
-
+    """Real pyarrow, real POSIX segment, history 'plain, plain, free first, heavy': the heavy schema
+    differs from the plain one only in metadata — field-level (schemas compare equal) and schema-level."""
     if args.get("has_dict"):
         return None
-    S = int(args["schema_msg"])
+    S = int(args.get("schema_msg2", args.get("schema_msg", 0)))
+    for field_level in (True, False):
+        got = _replay_write_one(S, field_level)
+        if got:
+            return got + (" [heavy schema == plain schema under pa.Schema.__eq__: differs in field metadata only]" if field_level else "")
+    return None
+
+
+def _replay_write_one(S: int, field_level: bool) -> str | None:
+    import pyarrow as pa
+
     plain = pa.schema([pa.field("a", pa.int64())])
-    heavy = _heavy_schema(S)  # schema message >= S bytes
+    heavy = _heavy_schema(S, field_level)  # schema message >= S bytes
     rows = list(range(64))
     b_plain = pa.RecordBatch.from_pydict({"a": rows}, schema=plain)
     b_heavy = pa.RecordBatch.from_pydict({"a": rows}, schema=heavy)
@@ -903,3 +980,55 @@ def write_within_allocation(total: int, off: int, ret_none: bool, has_dict: bool
         if e > r_off + r_len:
             return False
     return True
+
+
+@cond(q=60, t=180, stubs=_STUBS_B + ["schema := size-abstract object whose ==/hash identity is a separate symbolic choice from its serialized size (pa.Schema ==/hash ignore metadata)"],
+      encoded=[shm.ShmSegment.allocate_and_write, shm._ShmSink.write], replay=_replay_write,
+      bound="history of two non-dictionary writes into one segment: schemas A then B, B == A or B != A (symbolic) with independent symbolic serialized sizes; all sizes/offsets unbounded ints",
+      signature=lambda args, conc: "C28:write:allocation-sized-from-another-schema")
+def second_write_within_allocation(total: int, off1: int, off2: int, same_identity: bool, schema_msg1: int, schema_msg2: int, rb1: int, rb2: int, meta_part: int) -> bool:
+    """
+    pre: _HS < total < _U64 and _HS <= off1 and _HS <= off2
+    pre: schema_msg1 >= 8 and schema_msg2 >= 8 and rb1 >= 8 and rb2 >= 8 and 0 <= meta_part <= rb1 and meta_part <= rb2
+    post: _
+    """
+    _RUN["n"] += 1
+    for m in _MEMOS.values():
+        m.cache_clear()
+    _HOLD["ret_none"] = False
+    _HOLD["offs"] = (off1, off2)
+    _HOLD["dict"] = False
+    _SPLIT["m"] = meta_part
+    try:
+        buf = _SegBuf(total)
+        alloc = _AllocContract(total)
+        seg = _Seg(alloc, buf)
+        a = _FakeBatch(_FakeSchema(schema_msg1, 1), rb1, False, 1)
+        b = _FakeBatch(_FakeSchema(schema_msg2, 1 if same_identity else 2), rb2, False, 1)
+        for batch in (a, b):
+            before = len(buf.ranges)
+            n_calls = len(alloc.calls)
+            try:
+                res = seg.allocate_and_write(batch)
+            except HarnessModelError:
+                raise
+            except Exception:  # noqa: BLE001
+                res = "raised"
+            new = buf.ranges[before:]
+            if len(alloc.calls) == n_calls:
+                # nothing allocated (allocator said no): nothing may have been stored
+                if new or res not in (None, "raised"):
+                    return False
+                continue
+            if len(alloc.calls) != n_calls + 1:
+                return False
+            lo, ln = alloc.calls[-1]
+            for s0, e0 in new:
+                if s0 < lo or e0 > lo + ln:
+                    return False  # stored outside the region allocated for THIS batch
+            if res != "raised":
+                if res is None or res[0] != lo or res[1] > ln:
+                    return False
+        return True
+    finally:
+        _HOLD.pop("offs", None)
